@@ -175,8 +175,8 @@ func patternFill(dt ref.DT, sh []int, rot int) *ref.T {
 func checkC12(c *hx.Checker) {
 	thorough := c.Tier == "thorough"
 	c.Rule = "11 storable element types x {typed field, raw little-endian} x all shapes of Box(rank 0..4 [quick 0..3], extents {1,2,3}) with rotating special bit patterns (NaN payloads, extremes, negatives) + every value of 8/16-bit types (all 256 / 65536) + structured 32/64-bit alphabets; " +
-		"payload faults per (type, encoding, shape): raw length -1 byte, -1 element, +1 byte, +1 element, empty, doubled; typed field -1 element, +1 element, empty; both encodings populated; negative / zero dims; every other data_type code 0..22 and 99 with each typed field (and raw) populated; " +
-		"observed at onnx.TensorFromProto, as initializer returned by a zero-node model (NewModelFromBytes + Run), as Constant value and as the one-element value attribute of ConstantOfShape (rank 0, 1, 2). non-trivial = every case (distinct (type, encoding, shape/fault, observation point))"
+		"payload faults per (type, encoding, shape): raw length -1 byte, -1 element, +1 byte, +1 element, empty, doubled; typed field -1 element, +1 element, empty; both encodings populated; the type's own typed field too short and a stray second typed field making up the count; several initializers with identical payload bytes but different dims / types in one model (4 .. 65 536 elements); negative / zero dims; every other data_type code 0..22 and 99 with each typed field (and raw) populated; " +
+		"observed at onnx.TensorFromProto, as initializer returned by a zero-node model (NewModelFromBytes + Run; for 8 sizes also NewModelFromFile and NewModelFromZipFile with stored / deflated entries), as Constant value and as the one-element value attribute of ConstantOfShape (rank 0, 1, 2). non-trivial = every case (distinct (type, encoding, shape/fault, observation point))"
 	c.Assumptions = []string{"reference decoder: declared dims x declared type, typed carriers per the ONNX TensorProto comments (int32_data for (u)int8/16, int32, bool; uint64_data for uint32/64), raw = little-endian fixed width; element count must equal the dims product exactly",
 		"typed carrier values are in range of the element type (as in valid files); bool carriers are 0/1"}
 	var cases []tpCase
@@ -333,6 +333,143 @@ func checkC12(c *hx.Checker) {
 		add(tpr, "error", nil, fmt.Sprintf("code%d/raw", code), fmt.Sprintf("code=%d", code), "unsupported-data-type", "carrier=raw")
 		add(&onnx.TensorProto{DataType: code, Dims: []int64{1}}, "error", nil, fmt.Sprintf("code%d/no-payload", code), fmt.Sprintf("code=%d", code), "unsupported-data-type", "carrier=none")
 		add(&onnx.TensorProto{DataType: code}, "error", nil, fmt.Sprintf("code%d/no-payload-no-dims", code), fmt.Sprintf("code=%d", code), "unsupported-data-type", "carrier=none")
+	}
+	// several initializers in ONE model whose payload bytes are identical but whose declared shapes (or types of equal
+	// width) differ: each must decode to its own declaration
+	for _, n := range []int{4, 256, 4096, 65536} {
+		for _, enc := range []string{"raw", "typed"} {
+			n, enc := n, enc
+			id := fmt.Sprintf("same-payload-different-dims/%d-elements/%s", n, enc)
+			c.Case(hx.CaseInfo{ID: id, Tags: []string{"multi-initializer", "enc=" + enc}, NonTrivial: true}, func() (v *hx.Violation) {
+				base := patternFill(ref.F32, []int{n}, 3)
+				shapes := [][]int{{n}, {2, n / 2}, {n / 4, 4}, {1, n}, {2, 2, n / 4}}
+				g := &onnx.GraphProto{Name: "g"}
+				exp := map[string]*ref.T{}
+				var names []string
+				for k, sh := range shapes {
+					t := &ref.T{DT: ref.F32, Shape: sh, V: base.V}
+					nm := fmt.Sprintf("w%d", k)
+					g.Initializer = append(g.Initializer, hx.TensorProto(nm, t, enc))
+					g.Output = append(g.Output, hx.ValueInfoNoShape(nm))
+					exp[nm] = t
+					names = append(names, nm)
+				}
+				// same bytes read as int32 and uint32 (raw only: one payload, three element types)
+				if enc == "raw" {
+					for k, dt := range []ref.DT{ref.I32, ref.U32} {
+						t := &ref.T{DT: dt, Shape: []int{n}, V: make([]uint64, n)}
+						for i, b := range base.V {
+							t.V[i] = ref.EncI(dt, int64(int32(uint32(b)))) // the same 32 bits under this type's convention
+							if dt == ref.U32 {
+								t.V[i] = uint64(uint32(b))
+							}
+						}
+						nm := fmt.Sprintf("v%d", k)
+						g.Initializer = append(g.Initializer, hx.TensorProto(nm, t, "raw"))
+						g.Output = append(g.Output, hx.ValueInfoNoShape(nm))
+						exp[nm] = t
+						names = append(names, nm)
+					}
+				}
+				mb := hx.Marshal(hx.Model(g, 13))
+				mk := func(kind, detail string) *hx.Violation {
+					return &hx.Violation{Kind: kind, Detail: detail, Replay: newModelCase(mb, nil, "outputs", exp, hx.Cmp{Mode: "bits-exact"}, id)}
+				}
+				res := hx.RunModelBytes(mb, nil, names)
+				switch {
+				case res.Panic != "":
+					return mk("panic", res.Panic)
+				case res.Err != nil:
+					return mk("refused", res.Err.Error())
+				case res.ReadErr != "":
+					return mk("wrong-outputs", res.ReadErr)
+				}
+				for i, nm := range names {
+					if k, d := hx.CompareT(res.Outs[i], exp[nm], hx.Cmp{Mode: "bits-exact"}); k != "" {
+						return mk(k, fmt.Sprintf("initializer %s (declared %s%v): %s", nm, exp[nm].DT, exp[nm].Shape, d))
+					}
+				}
+				return hx.OK("exact")
+			})
+		}
+	}
+	// further observation points: the same weights through NewModelFromFile and NewModelFromZipFile (stored / deflated)
+	for _, n := range []int{7, 9000, 40000, 262147} {
+		for _, compressible := range []bool{false, true} {
+			n, compressible := n, compressible
+			c.Case(hx.CaseInfo{ID: fmt.Sprintf("loaders/%d-weights/compressible=%v", n, compressible), Tags: []string{"loaders"}, NonTrivial: true}, func() (v *hx.Violation) {
+				mk := func(kind, detail string) *hx.Violation {
+					return &hx.Violation{Kind: kind, Detail: detail, Replay: map[string]any{"replay_kind": "loaders", "n": n, "compressible": compressible}}
+				}
+				defer func() {
+					if p := recover(); p != nil {
+						v = mk("panic", fmt.Sprintf("%v :: %s", p, firstLines(string(debug.Stack()), 12)))
+					}
+				}()
+				return loadersCase(n, compressible, mk)
+			})
+		}
+	}
+	// a typed field that is too short, topped up by a stray second typed field so that the total matches the dims
+	for _, dt := range storable {
+		own := hx.TensorProto("", patternFill(dt, []int{4}, 1), "typed")
+		for k := 1; k <= 3; k++ {
+			for _, stray := range []string{"float", "int32", "int64", "double", "uint64", "string"} {
+				tp := proto.Clone(own).(*onnx.TensorProto)
+				short := func() bool {
+					switch {
+					case len(tp.FloatData) > 0:
+						tp.FloatData = tp.FloatData[:4-k]
+					case len(tp.DoubleData) > 0:
+						tp.DoubleData = tp.DoubleData[:4-k]
+					case len(tp.Int32Data) > 0:
+						tp.Int32Data = tp.Int32Data[:4-k]
+					case len(tp.Int64Data) > 0:
+						tp.Int64Data = tp.Int64Data[:4-k]
+					case len(tp.Uint64Data) > 0:
+						tp.Uint64Data = tp.Uint64Data[:4-k]
+					default:
+						return false
+					}
+					return true
+				}()
+				if !short {
+					continue
+				}
+				before := len(tp.FloatData) + len(tp.DoubleData) + len(tp.Int32Data) + len(tp.Int64Data) + len(tp.Uint64Data)
+				switch stray {
+				case "float":
+					if len(tp.FloatData) == 0 {
+						tp.FloatData = make([]float32, k)
+					}
+				case "int32":
+					if len(tp.Int32Data) == 0 {
+						tp.Int32Data = make([]int32, k)
+					}
+				case "int64":
+					if len(tp.Int64Data) == 0 {
+						tp.Int64Data = make([]int64, k)
+					}
+				case "double":
+					if len(tp.DoubleData) == 0 {
+						tp.DoubleData = make([]float64, k)
+					}
+				case "uint64":
+					if len(tp.Uint64Data) == 0 {
+						tp.Uint64Data = make([]uint64, k)
+					}
+				case "string":
+					for i := 0; i < k; i++ {
+						tp.StringData = append(tp.StringData, []byte("x"))
+					}
+				}
+				after := len(tp.FloatData) + len(tp.DoubleData) + len(tp.Int32Data) + len(tp.Int64Data) + len(tp.Uint64Data) + len(tp.StringData)
+				if after == before {
+					continue // the stray field is the type's own carrier
+				}
+				add(tp, "error", nil, fmt.Sprintf("%s/typed-short-by-%d+stray-%s", dt, k, stray), "dtype="+dt.String(), "enc=typed", "fault=short+stray-field", "payload-count-mismatch")
+			}
+		}
 	}
 	c.ParallelFor(len(cases), func(i int) {
 		cs := cases[i]
